@@ -229,7 +229,11 @@ CHECKS['C06'] = dict(
          'backquote, brackets, < and & (and without eight exotic whitespace code points, C06_whitespace_deviation) the '
          'matches of find_core_tokens are, one for one and in order, the specification\'s emphasis nodes; the opener '
          'bottoms never change a result (C06_bottoms_sound). The theorem is re-checked on the real find_core_tokens '
-         '(c06.theorem), the Lean specification is compared with the independent Python reading (spec.emph). Texts '
+         '(c06.theorem), the Lean specification is compared with the independent Python reading (spec.emph). THE OUTPUT '
+         '(Props/C06_Html.lean): the span resolver, the token builder and the HTML renderer turn those matches into '
+         '<em>/<strong> elements nested exactly as the specification\'s spans around the escaped text - tokenize_inner + '
+         'HtmlRenderer give the specification\'s HTML of the text (C06_html_is_spec_esc_partial; through Document: '
+         'C06_paragraph_html_is_spec_esc_partial) for one-line texts without "~~"; re-checked on the real code (c06.theorem.html). Texts '
          'with "!" and "[": exhaustive small-alphabet and random exploration against the Python '
          'oracle. Model tied to the code by an inline-level correspondence (token tree with attributes) on the same '
          'exhaustive strings.',
